@@ -23,14 +23,16 @@ class ToGFA2:
       from_l = self._lastpos_of("from_segment")
       return [from_l - self.overlap.length_on_reference(), from_l]
     else:
-      return [0, self.overlap.length_on_reference()]
+      return [0, self._end_position(self.overlap.length_on_reference(),
+                                    "from_segment")]
 
   @property
   def to_coords(self):
     """GFA2 positions of the alignment on the **to** segment."""
     self._check_overlap()
     if self.to_orient == "+":
-      return [0, self.overlap.length_on_query()]
+      return [0, self._end_position(self.overlap.length_on_query(),
+                                    "to_segment")]
     else:
       to_l = self._lastpos_of("to_segment")
       return [to_l - self.overlap.length_on_query(), to_l]
